@@ -102,7 +102,9 @@ UNITS = {
                  why="retry budget: unchanged (1 000 000) unless the adversarial harness is running, then 3 (bounded stand-in for C18)",
                  probe_group="read_probes"),
         ],
-        "probe_guards": {"read_probes": ["C18.snapshot.one_read_when_quiescent", "C18.snapshot.early_return_without_reading",
+        "probe_guards": {"read_probes": ["C03.one_update.never_an_error", "C03.one_update.returns_one_whole_publication_with_its_generation",
+                                         "C03.one_update.switch_before_the_first_generation_load_is_caught_up", "C03.one_update.needs_at_most_two_iterations",
+                                         "C18.snapshot.one_read_when_quiescent", "C18.snapshot.early_return_without_reading",
                                          "C18.snapshot.record_reads_bounded_by_budget", "C18.snapshot.shared_accesses_bounded_by_budget",
                                          "C18.snapshot.accepts_only_even_generation", "C18.snapshot.error_kind_after_budget",
                                          "C18.snapshot.error_only_after_full_budget"]},
@@ -250,6 +252,11 @@ pub(crate) fn writer_for_harness(base: *mut u8) -> ShmWriter {
         "files": [("clock-bound-d/src/verif_search_extract.rs", "harness/clock-bound-d/verif_search_extract.rs")],
         "edits": [child_mod_cfg("clock-bound-d/src/shm_writer.rs", "verif_search_extract", "verif_search")],
     },
+    "d_status_search": {
+        "crate": "clock-bound-d", "features": None,
+        "files": [("clock-bound-d/src/verif_search_status.rs", "harness/clock-bound-d/verif_search_status.rs")],
+        "edits": [child_mod_cfg("clock-bound-d/src/shm_writer.rs", "verif_search_status", "verif_search")],
+    },
     "d_main": {
         "crate": "clock-bound-d", "features": None,
         "gen": gen_verif_main,
@@ -308,6 +315,14 @@ EXTRACT_NATIVE = {"kind": "native", "crate": "clock-bound-d", "units": ["d_extra
                   "obligations": ["C07.extract.body_obligations", "C07.extract.never_negative", "C07.extract.never_smaller_than_the_sum",
                                   "C07.extract.rounded_up_by_less_than_1ns"]}
 
+STATUS_PAIR = {"kind": "search", "crate": "clock-bound-d", "units": ["d_status_search"], "features": None, "test": "verif_search_status"}
+STATUS_NATIVE = {"kind": "native", "crate": "clock-bound-d", "units": ["d_status_search"], "features": None, "test": "verif_search_status",
+                 "bound": "real SystemTime clock: 9 leap codes x 41 wire exponents x 4 coefficients of the update interval x 14 reference-time ages "
+                          "(1 day in the future ... 40 years old, incl. 8 intervals -/+ 3 s); ages within 2 s of a decision boundary are not asserted",
+                 "obligations": ["C10.extract.no_panic", "C10.extract.sync_only_if_leap", "C10.extract.sync_only_if_not_future", "C10.extract.sync_only_if_fresh",
+                                 "C10.extract.stale_is_free", "C10.extract.leap3_is_free", "C10.extract.bad_leap_unknown", "C10.extract.future_unknown",
+                                 "C10.extract.fresh_is_sync"]}
+
 NOW_GRP = {"kind": "kani", "crate": "clock-bound-shm", "units": ["shm_now"], "modpath": "verif_now",
            "harnesses": [{"name": "c12_now_reads_realtime_then_monotonic", "file": "harness/clock-bound-shm/verif_now.rs", "replayable": False,
                           "tier": "quick", "timeout": 600}]}
@@ -361,6 +376,8 @@ QUIESCENT_H = sh("c03_snapshot_quiescent", RD,
 # the same harness as used by C03 / C04: only their own clauses count there (the C18 read-count clauses
 # depend on optional ghost probes)
 QUIESCENT_H_C03 = dict(QUIESCENT_H, only=r"C03\.|C04\.|C18\.snapshot\.quiescent_call")
+ONE_UPDATE_H = sh("c03_snapshot_one_publication_during_the_call", RD, replayable=False,
+                  unwind_obligation="C03.one_update.needs_at_most_two_iterations")
 SNAPSHOT_VERUS = {"kind": "verus", "gen": "snapshot", "obligations": [r"C18\.verus\..*"], "rlimit": 30}
 OPEN_H = sh("c16_open_any_file", RD, replayable=False, timeout=900)
 PROBE_H = sh("c16_usability_probe_agrees_with_client_open", WR, replayable=False, timeout=900)
@@ -485,13 +502,15 @@ PROPS = {
                         "update interval restricted to non-negative wire floats with exponent in [-10, 30] (interval < 2^29 s); age < 2^40 s"],
         "trusted": ["harness/clock-bound-d/verif_updater.rs (oracle: exact integer comparison of the age with 8 * interval)"],
         "groups": [{"kind": "kani", "crate": "clock-bound-d", "units": ["shm_pub", "d_nolog", "d_updater"], "modpath": "shm_writer::verif_updater",
+                    "pair": STATUS_PAIR,
                     "harnesses": [dh("c10_from_u16", replayable=True)] + [
                         dh("c10_extract_status_e%s%d" % ("m" if e < 0 else "p", abs(e)),
                            obligations=["C10.extract.sync_only_if_leap", "C10.extract.sync_only_if_not_future",
                                         "C10.extract.sync_only_if_fresh", "C10.extract.stale_is_free",
                                         "C10.extract.leap3_is_free", "C10.extract.bad_leap_unknown",
                                         "C10.extract.future_unknown", "C10.extract.fresh_is_sync"])
-                        for e in range(-10, 31)]}],
+                        for e in range(-10, 31)]},
+                   STATUS_NATIVE],
     },
     "C01": {
         "functions": ["composition lemma lemma_c01_containment (Verus) over the contracts of: extract_bound_from_tracking, ShmUpdater::{process_clock_update, process_missing_clock_update, "
@@ -559,7 +578,7 @@ PROPS = {
                         "call granularity only: the segment does not change while a snapshot call executes ('no update is in flight'); calls overlapping an update are C02's quantifier and are not covered",
                         "snapshot's retry loop is unwound twice with the unwinding assertion on (with a quiescent segment the first iteration returns)"],
         "trusted": ["harness/clock-bound-shm/verif_read.rs (Seg layout, reader_over)"],
-        "groups": [dict(SHM_READ_GRP, harnesses=[QUIESCENT_H_C03]),
+        "groups": [dict(SHM_READ_GRP, harnesses=[QUIESCENT_H_C03, ONE_UPDATE_H]),
                    SNAPSHOT_VERUS,
                    dict(SHM_WRITE_GRP, harnesses=[C11_WRITE, sh("c16_write_then_fresh_snapshot_roundtrip", WR)]),
                    lemmas(r"C03\.lemma\..*", r"C11\.lemma\..*")],
@@ -571,7 +590,7 @@ PROPS = {
                         "crash *states*, not schedules: every prefix of write leaves (generation odd, record arbitrary) or (generation even, record complete) [C11 probes]; every prefix of wipe "
                         "leaves a prefix of (magic, size, version 0, generation 0, zeros), a subset of 'any bytes'; interleavings of the restarted writer with concurrent reader calls are not covered (C02)"],
         "trusted": ["harness/clock-bound-shm/verif_write.rs, verif_read.rs, posix_model.c"],
-        "groups": [dict(SHM_READ_GRP, harnesses=[QUIESCENT_H_C03]),
+        "groups": [dict(SHM_READ_GRP, harnesses=[QUIESCENT_H_C03, ONE_UPDATE_H]),
                    SNAPSHOT_VERUS,
                    dict(SHM_READ_GRP, c_lib=POSIX, harnesses=[OPEN_H]),
                    dict(SHM_WRITE_GRP, c_lib=POSIX, harnesses=[PROBE_H]),
@@ -606,7 +625,8 @@ PROPS = {
             {"kind": "kani", "crate": "clock-bound-shm", "units": ["shm_now"], "modpath": "verif_now",
              "harnesses": [sh("c12_now_reads_realtime_then_monotonic", "harness/clock-bound-shm/verif_now.rs", replayable=False)]},
             CLOCK_GRP,
-            dict(PGRP, harnesses=[{"name": "c13_poller_iteration", "file": POL, "replayable": False, "tier": "quick", "timeout": 900}]),
+            dict(PGRP, harnesses=[{"name": "c13_poller_iteration", "file": POL, "replayable": False, "tier": "quick", "timeout": 900,
+                                   "only": r"C12\.poller\..*"}]),
             {"kind": "verus", "gen": "compute", "obligations": [r"C05\.lemma\.monotone", r"C05\.compute\.exact"], "rlimit": 30, "float_dependent": FLOAT_DEP,
              "float_shape_clause": "C05.compute.exact", "float_dependent_if_shape_lost": ["C05.compute.ordered", "C14.compute.no_panic"], "pair": COMPUTE_SEARCH},
         ],
